@@ -7,6 +7,7 @@ CONSTANTS
   Dev_h35 = TRUE
   Emit = FALSE
   KnownClasses = {}
+  Rich = TRUE
   BaseVal <- BaseEdge
-INVARIANTS Refines
+INVARIANTS RefinesCex
 CHECK_DEADLOCK FALSE
